@@ -672,6 +672,25 @@ def n2b_rename_copies(fnode, keep=()):
                         _quiet(run, tgt.attr):
                     new = rename(run, t, _as_load(tgt))
                     return stmts[:i] + new + stmts[last + 1:], True
+            # ---- T = E; ..T..; V = g(..T..)   (V not mentioned before)
+            fin = stmts[last]
+            if isinstance(fin, ast.Assign) and len(fin.targets) == 1 and \
+                    isinstance(fin.targets[0], ast.Name) and \
+                    fin.targets[0].id != t and \
+                    _name_occ(fin.value, t) and \
+                    not _name_occ(fin.value, fin.targets[0].id) and \
+                    sum(1 for x in _name_occ(fnode, t)
+                        if isinstance(x.ctx, ast.Store)) >= 2:
+                # (a temporary bound once is the single-use inliner's job)
+                v = fin.targets[0].id
+                if v not in nested and \
+                        not any(_name_occ(s2, v) for s2 in stmts[i:last]) \
+                        and not _handler_reads(fnode, v) and \
+                        occ_after == sum(len(_name_occ(s2, t))
+                                         for s2 in stmts[i + 1:last + 1]):
+                    new = rename(stmts[i:last + 1], t,
+                                 ast.Name(id=v, ctx=ast.Load()))
+                    return stmts[:i] + new + stmts[last + 1:], True
             # ---- entry copy  T = V
             if isinstance(st.value, ast.Name) and st.value.id != t:
                 v = st.value.id
@@ -1859,6 +1878,38 @@ def n6c_multi_use_temps(fnode, keep=()):
             for h in getattr(st, 'handlers', []) or []:
                 for r in assigns(h.body):
                     yield r
+    # document order of every node; every node also knows the order number
+    # of the END of the statement it sits in (a use is reached by anything
+    # evaluated up to the end of its statement)
+    ordv, stmt_of = {}, {}
+    counter = [0]
+
+    def number(stmts):
+        for st2 in stmts:
+            counter[0] += 1
+            ordv[id(st2)] = counter[0]
+            inner_lists = []
+            for fld in ('body', 'orelse', 'finalbody'):
+                sub = getattr(st2, fld, None)
+                if isinstance(sub, list) and not isinstance(
+                        st2, (ast.FunctionDef, ast.AsyncFunctionDef,
+                              ast.ClassDef)):
+                    inner_lists.append(sub)
+            for h in getattr(st2, 'handlers', []) or []:
+                inner_lists.append(h.body)
+            inner_ids = {id(y) for sub in inner_lists for s3 in sub
+                         for y in ast.walk(s3)}
+            own = [x for x in ast.walk(st2) if id(x) not in inner_ids and
+                   x is not st2]
+            for x in own:
+                counter[0] += 1
+                ordv[id(x)] = counter[0]
+            end = counter[0]
+            for x in own:
+                stmt_of[id(x)] = end
+            for sub in inner_lists:
+                number(sub)
+    number(fnode.body)
     for (block, st) in list(assigns(fnode.body)):
         v = st.targets[0].id
         if v in keep or v in params or len(stores.get(v, ())) != 1 or \
@@ -1866,12 +1917,14 @@ def n6c_multi_use_temps(fnode, keep=()):
             continue
         if not _value_pure(st.value):
             continue
-        line0 = st.lineno
+        # positions in evaluation order of the function text (spliced
+        # statements share the line of the call they replaced, so line
+        # numbers do not order them): statement index, then node index
+        line0 = ordv[id(st)]
         uses = loads[v]
-        if any(getattr(u, 'lineno', 0) < line0 for u in uses):
+        if any(ordv.get(id(u), 0) < line0 for u in uses):
             continue
-        last = max(getattr(u, 'end_lineno', getattr(u, 'lineno', 0))
-                   for u in uses)
+        last = max(ordv.get(id(u), 0) for u in uses)
         my_loop = loop_of.get(id(st.targets[0]))
         if any(loop_of.get(id(u)) is not my_loop for u in uses):
             continue
@@ -1881,9 +1934,9 @@ def n6c_multi_use_temps(fnode, keep=()):
         clash = False
 
         def reaches_a_use(node):
-            ln = getattr(node, 'lineno', 0)
-            return any(line0 < ln <= getattr(u, 'lineno', 0) and
-                       not exclusive(node, u) for u in uses)
+            ln = ordv.get(id(node), 0)
+            return any(line0 < ln <= ordv.get(id(u), 0)
+                       and not exclusive(node, u) for u in uses)
         for nm in free:
             for sx in stores.get(nm, ()):
                 if reaches_a_use(sx):
@@ -2143,11 +2196,21 @@ def n9_restore_statements(fnode, base_hashes):
                         st.targets[0], ast.Tuple) and isinstance(
                         st.value, ast.Tuple) and len(
                         st.targets[0].elts) == len(st.value.elts) and all(
-                        isinstance(t, ast.Name) for t in st.targets[0].elts):
-                    names = [t.id for t in st.targets[0].elts]
+                        isinstance(t, ast.Name) or (
+                            isinstance(t, ast.Attribute) and _pure_path(t))
+                        for t in st.targets[0].elts):
+                    names = [t.id for t in st.targets[0].elts
+                             if isinstance(t, ast.Name)]
                     ok = all(not _name_occ(v, n)
                              for k, v in enumerate(st.value.elts)
                              for n in names[:k])
+                    if any(isinstance(t, ast.Attribute)
+                           for t in st.targets[0].elts):
+                        # attribute targets: only when no value reads an
+                        # attribute or calls anything (literals / names)
+                        ok = ok and all(not any(isinstance(
+                            x, (ast.Attribute, ast.Call, ast.Subscript))
+                            for x in ast.walk(v)) for v in st.value.elts)
                     parts = [ast.copy_location(ast.Assign(
                         targets=[t], value=v), st) for t, v in zip(
                             st.targets[0].elts, st.value.elts)]
